@@ -713,7 +713,7 @@ def span_css(sp, fs, rtl):
     return ';'.join(st)
 
 
-def float_text_html(words, spans, fs, rtl, mid_html=None, mid_at=None):
+def float_text_html(words, spans, fs, rtl, mid_html=None, mid_at=None, atom_h=None):
     out = ''
     for k, w in enumerate(words):
         if k:
@@ -722,12 +722,15 @@ def float_text_html(words, spans, fs, rtl, mid_html=None, mid_at=None):
             out += mid_html
         for sp in sorted((sp for sp in spans if sp['s'] == k), key=lambda sp: sp['depth']):
             out += '<span style="%s">' % span_css(sp, fs, rtl)
-        out += w
+        if w.startswith(OBJ):
+            out += '<span style="display:inline-block;width:%dpx;height:%dpx"></span>' % (len(w) * fs, atom_h or fs)
+        else:
+            out += w
         out += '</span>' * len([sp for sp in spans if sp['e'] == k])
     return out
 
 
-def gen_float_case(rng, idx, allow_inline=True, allow_mid=True, allow_tall_aligned=True):
+def gen_float_case(rng, idx, allow_inline=True, allow_mid=True, allow_tall_aligned=True, allow_atomic=False):
     """1..3 floats (left/right, clear) whose heights are exact multiples of the line height or one pixel off, before
     the text of the block (block-level floats or floated spans at the very start of the paragraph), sometimes one
     more float met in the middle of the text.  Two paragraphs out of three carry inline boxes with start / end margin,
@@ -759,6 +762,13 @@ def gen_float_case(rng, idx, allow_inline=True, allow_mid=True, allow_tall_align
     words = [w[:rng.choice([1, 2, 3, 5, 8])] for w in words]
     if spanned:
         words = [(w + w + w)[:max(1, room - rng.choice([0, 0, 1, 1, 2]))] if rng.random() < 0.5 else w for w in words]
+    if allow_atomic and spanned and rng.random() < 0.3:
+        # atomic inline-level boxes as words: OBJ repeated k times stands for an inline-block k em wide (not generated
+        # while F207 is open: see stream_floats)
+        words = [OBJ * rng.choice([1, 2, max(1, room - 1), room, room + 1]) if rng.random() < 0.25 else w for w in words]
+        atom_h = rng.choice([fs // 2, fs, lh, lh + fs])
+    else:
+        atom_h = fs
     tag = 'span' if inline else 'div'
     fl_html = ''.join('<%s style="float:%s;clear:%s;width:%dpx;height:%dpx;margin-top:%dpx;margin-bottom:%dpx"></%s>' % (
         tag, f['side'], f['clear'], f['w'], f['h'] - f['mt'] - f['mb'] if f['h'] - f['mt'] - f['mb'] > 0 else f['h'],
@@ -777,7 +787,7 @@ def gen_float_case(rng, idx, allow_inline=True, allow_mid=True, allow_tall_align
         if rng.random() < 0.5 and not any(sp['s'] == 0 for sp in spans):
             spans.append(dict(s=0, e=0, depth=0, start=rng.choice(SPACING_EMS[2:]), end=rng.choice(SPACING_EMS),
                               how=rng.choice(['padding', 'margin', 'border', 'mix'])))
-    text = float_text_html(words, spans, fs, rtl, mid_html, mid and mid['at'])
+    text = float_text_html(words, spans, fs, rtl, mid_html, mid and mid['at'], atom_h)
     style = 'width:%spx;font-size:%dpx;line-height:%dpx;text-align:%s' % (width, fs, lh, ta)
     if rtl:
         style += ';direction:rtl'
@@ -787,7 +797,7 @@ def gen_float_case(rng, idx, allow_inline=True, allow_mid=True, allow_tall_align
         body = '<div id="p%d" style="%s">%s%s</div>' % (idx, style, fl_html, text)
     html = ('<style>@page{size:3000px 200000px;margin:0}body{margin:0;font-family:weasyprint}</style>' + body)
     return dict(html=html, words=words, fs=fs, lh=lh, width=width, ta=ta, inline=inline, nfloats=len(floats), mid=mid,
-                spans=spans, rtl=rtl)
+                spans=spans, rtl=rtl, atom_h=atom_h)
 
 
 def free_interval(B, floats, top, bottom):
@@ -807,12 +817,26 @@ def floats_beside(floats, top, bottom):
     return [f for f in floats if f['y'] < bottom - EPS and f['y'] + f['mh'] > top + EPS and f['mw'] > 0]
 
 
-def float_lines(blocks):
+def float_line_text(ln, fs):
+    """the text of the line; an atomic inline-level box k em wide reads as OBJ repeated k times"""
+    s = ''
+    for it in ln['items']:
+        if it['kind'] == 'text':
+            s += it['text']
+        elif it['kind'] == 'atomic':
+            s += OBJ * max(1, int(round(mbw(it) / fs)))
+    return s
+
+
+def float_lines(blocks, fs=None):
     """the main container and its lines that hold something"""
     mains = [b for b in blocks if b['main']]
     if len(mains) != 1:
         return None, []
     B = mains[0]
+    if fs is not None:
+        for ln in B['lines']:
+            ln['text'] = float_line_text(ln, fs)
     return B, [ln for ln in B['lines'] if ln['text'].strip(' ') or ln['w'] > 0]
 
 
@@ -834,7 +858,7 @@ def judge_floats(case, blocks, hyp=None, stats=None):
     after it; a line of the words a..b-1 is as wide as its words, spaces and the spacing of the boxes that open or close
     on it (computed from the source, cross-checked on ltr lines with first_break_x of the rendered line)."""
     bad = []
-    B, lines = float_lines(blocks)
+    B, lines = float_lines(blocks, case['fs'])
     if B is None:
         return [('paragraph-rendered-once', 'line 0 %d containers' % len([b for b in blocks if b['main']]))]
     floats, fs, words = B['floats'], case['fs'], case['words']
@@ -877,17 +901,18 @@ def judge_floats(case, blocks, hyp=None, stats=None):
                 stats[key] = stats.get(key, 0) + 1
         if ln['w'] > avail + EPS and b - a >= 2:
             bad.append(('float-fit', 'line %d %r x=%s w=%s free %s..%s' % (i, text, ln['x'], ln['w'], left, right)))
-        elif ln['w'] > avail + EPS:
-            # one unbreakable unit: it may stick out of the room left by the floats only where no float is left
-            # beside it (CSS 2.1 9.5: otherwise the line box is shifted downward)
+        elif ln['w'] > avail + EPS and b > a and natural(a, b) > avail + EPS:
+            # one unbreakable unit (its width from the source: a space kept at the end of the line box is not part of
+            # it): it may stick out of the room left by the floats only where no float is left beside it (CSS 2.1
+            # 9.5: otherwise the line box is shifted downward)
             beside = floats_beside(floats, top, bottom)
-            if beside and b > a:
+            if beside:
                 over = [f for f in beside if
                         min(ln['x'] + ln['w'], f['x'] + f['mw']) - max(ln['x'], f['x']) > EPS]
                 bad.append(('float-unit-beside-float', 'line %d %r x=%s w=%s free %s..%s: does not fit beside the float(s) '
                             'at its height%s' % (i, text, ln['x'], ln['w'], left, right,
                                                  ' and overlaps %d of them' % len(over) if over else '')))
-        else:
+        elif ln['w'] <= avail + EPS:
             ta = {'start': 'right' if rtl else 'left'}.get(case['ta'], case['ta'])
             if ta == 'justify' and (last or b - a < 2):
                 ta = 'right' if rtl else 'left'
@@ -943,16 +968,23 @@ def classify_floats(case, blocks, clause, detail):
       the float's side; a float that waited for the end of the line because it did not fit fails the fit test.
     F203 line-trailing-space-kept-before-out-of-flow-box: clause float-fit; the last text of the line ends with a
       collapsible space that is followed, in the line, by a float; the line fits without that space.
-    F50, F51, F135, F183, F184, F187, F201 (line box of a line holding a left float) and F210 (rtl) are repaired: no
-    branch for them."""
+    F207 line-starting-with-atomic-box-kept-beside-float: clause float-unit-beside-float; the first content of the
+      line is an atomic inline-level box (the estimate of the first unit is the empty line before the box: 0).
+    F50, F51, F135, F183, F184, F187, F201 (line box of a line holding a left float), F210 (rtl) and F206 (first
+    unit of a line beside floats measured with spacing / a space that is not on the line) are repaired: no branch for
+    them.  The clauses float-unit-beside-float, float-line-extent, float-unit-extent and float-overlap have no open
+    finding."""
     import re
     m = re.match(r'line (\d+)', detail)
-    B, lines = float_lines(blocks)
+    B, lines = float_lines(blocks, case['fs'])
     if m is None or B is None or int(m.group(1)) >= len(lines):
         return None
     i = int(m.group(1))
     ln = lines[i]
     items = ln['items']
+    content = [it for it in items if it['kind'] == 'atomic' or (it['kind'] == 'text' and it['text'].strip(' '))]
+    if clause == 'float-unit-beside-float' and content and content[0]['kind'] == 'atomic':
+        return 'line-starting-with-atomic-box-kept-beside-float'
     fl = [it for it in items if it['kind'] == 'float']
     if not fl:
         return None
@@ -1266,9 +1298,15 @@ def stream_avoid(run, rng, n):
 
 def stream_floats(run, rng, n):
     allow_mid = allow_inline = True
-    cases = [gen_float_case(rng, i) for i in range(n)]
+    import glob, os
+    corpus = []
+    for f in sorted(glob.glob(os.path.join(common.VERIF, 'corpus', 'C09', '*.json'))):
+        d = json.load(open(f))
+        if d.get('stream') == 'float-lines':
+            corpus.append(d['case'])
+    cases = corpus + [gen_float_case(rng, i) for i in range(n)]
     outs = common.run_impl('impl_c09', 'render_lines', [{'html': c['html']} for c in cases], limit=60, chunksize=8)
-    known, nlines, kinds = {}, 0, set()
+    known, nlines, kinds, stats = {}, 0, set(), {}
     for c, (st, o) in zip(cases, outs):
         if st != 'ok':
             run.fail('render %s' % (st if st == 'timeout' else 'raised %s at %s' % (o['type'], o['site'])),
@@ -1277,7 +1315,7 @@ def stream_floats(run, rng, n):
             continue
         nlines += sum(len(b['lines']) for b in o if b['main'])
         seen = set()
-        for clause, detail in judge_floats(c, o):
+        for clause, detail in judge_floats(c, o, stats=stats):
             sig = classify_floats(c, o, clause, detail)
             if (clause, sig) in seen:
                 continue
@@ -1287,10 +1325,31 @@ def stream_floats(run, rng, n):
             run.fail('line next to floats violates clause %s: %s' % (clause, detail),
                      {'stream': 'float-lines', 'html': c['html'], 'case': {k: v for k, v in c.items() if k != 'html'},
                       'clause': clause, 'detail': detail}, signature=sig)
-        kinds.add((c['nfloats'], c['ta'], c['inline'], c['mid'] is not None, c['lh'] == c['fs'], c['width']))
+        kinds.add((c['nfloats'], c['ta'], c['inline'], c['mid'] is not None, c['lh'] == c['fs'], c['width'], c['rtl'],
+                   min(3, len(c['spans'])), any(sp['depth'] for sp in c['spans'])))
     run.count('float-lines', len(cases), kinds, samples=[cases[0]['html'][:600]])
+    # the boundary the inline boxes are generated for must be met, on first lines and on continuation lines
+    enough = all(stats.get('first_word_fits_beside_float_only_without_its_spacing_' + k, 0) >= max(3, n // 100)
+                 for k in ('line0', 'later_line'))
+    run.oblige('coverage:float-lines(first word fits beside a float without the spacing of its inline boxes, not with it)',
+               enough, 'measured %s in %d paragraphs' % (stats, n))
     run.stream_info('float-lines', lines=nlines, known_mechanisms_hit=known, judged_in='Python (judge_floats)',
                     floats_in_mid_line_generated=allow_mid, floated_spans_at_paragraph_start_generated=allow_inline,
+                    atomic_boxes_as_words_generated='no (judge, classifier and one corpus case only: open finding F207 and two more unanalysed mechanisms show up at once)',
+                    paragraphs_with_inline_boxes=sum(1 for c in cases if c['spans']),
+                    rtl_paragraphs=sum(1 for c in cases if c['rtl']), corpus_cases=len(corpus),
+                    nested_inline_boxes=sum(1 for c in cases if any(sp['depth'] for sp in c['spans'])), boundary=stats,
+                    inline_boxes='two paragraphs out of three (30% of them rtl): inline boxes over 1..5 words (half of '
+                                 'them over one word), nested twice at most, with start / end spacing of 0, 1/2, 1, 2, 3 em '
+                                 'as padding, border, margin or a mix; one float leaves 2..6 em (+-1px) and half of '
+                                 'the words are as long as that room or 1..2 letters shorter; `boundary` counts the lines '
+                                 'whose first word fits beside a float, where the line is tried first, without the '
+                                 'spacing that belongs to its unit but not with it; clauses: a line of several units '
+                                 'fits the free interval; a line of one unit (word + the start spacing of the boxes '
+                                 'opening before it + the end spacing of those closing after it, from the source) sticks '
+                                 'out only where no float is beside it; greedy and no needless gap with that unit; the '
+                                 'line box is as wide as its words, spaces and the spacing that opens / closes on it; the '
+                                 'first break opportunity of the rendered line (first_break_x) is where the source says',
                     rule='1..3 left/right floats with clear none/side/both, heights = 1..3 line heights and one pixel '
                          'above/below, vertical margins, as block-level boxes before the text or as floated spans at the '
                          'start of the paragraph (30%), one more float in the middle of the text (10%); per line: the free '
